@@ -21,14 +21,15 @@ def gen(ctx, q):
     sid = 0
     combos = formats.writable(channels=(1, 2, 3))
     if q:
-        combos = [c for c in combos if c[1] <= 2 or vlib.dhash((c[0], ctx.seed)) % 4 == 0]
+        # (3 channels do not divide the 2048 / 1024 item staging buffers: block codecs that count in frames are always kept)
+        combos = [c for c in combos if c[1] <= 2 or vlib.dhash((c[0], ctx.seed)) % 4 == 0 or not formats.is_granular(c[0])]
     group = 0
     for (f, ch) in combos:
         name = formats.name(f)
         mj, sb = name.split("/")
         ts = "fd" if sb in ("FLOAT", "DOUBLE") else "sifd"
         for n in ([1, 37, 1030] if not q else [rng.choice([1, 37]), 1030]):
-            if q and n == 1030 and vlib.dhash((f, ch, ctx.seed)) % 2:
+            if q and n == 1030 and vlib.dhash((f, ch, ctx.seed)) % 2 and not (ch == 3 and not formats.is_granular(f)):
                 n = 333
             t = rng.choice(ts)
             vals = gens.values(rng, t, n * ch, sb if sb in ("ULAW", "ALAW") else None)
